@@ -153,13 +153,13 @@ var safeStrings = []string{"", "a", "x y", "ü", "<tag>&amp;", "line\nbreak", "\
 
 // compatible lists the value kinds a producer accepts.
 var compatible = map[string][]string{
-	"application/json":         {"str", "map", "list", "doc", "int"},
+	"application/json":         {"str", "map", "list", "doc", "int", "nilmap", "nillist", "nildoc"},
 	"application/xml":          {"doc", "str", "int", "list"},
 	"application/x-yaml":       {"str", "map", "list", "doc", "int"},
 	"text/plain":               {"str", "stringer", "textm", "doc", "list", "bytes"},
 	"text/html":                {"str", "stringer", "textm"},
 	"application/octet-stream": {"bytes", "str", "binm", "doc", "list"},
-	mtStampA:                   {"str", "map", "list", "doc", "int", "bytes"},
+	mtStampA:                   {"str", "map", "list", "doc", "int", "bytes", "nilmap", "nillist"},
 	mtStampB:                   {"str", "map", "list", "doc", "int", "bytes"},
 }
 
